@@ -183,6 +183,7 @@ type Exec struct {
 	sinkArgs      []*Val
 	sinkHit       map[string]bool // sink clauses whose callee was reached on some path
 	seenCalls     map[string]bool // canonical names under which a call was counted on some path
+	loopSortHint  map[string]string // "a:<callee>:<i>" / "r:<callee>:<i>" -> SMT sort of that argument / result
 	allocBase0  *Term
 	topMods     []modTarget
 	autoHeader  []autoMark
